@@ -132,10 +132,13 @@ class Statement(object):
                     raise ParseError("[{}] requires a delimited string".format(self.mnemonic), line)
                 starting_symbol = original_operand[0]
                 ending_location = original_operand.find(starting_symbol, 1)
-                self.operand = Operand.create_from_str(
-                    original_operand[0:ending_location + 1].strip(),
-                    self.instruction
-                )
+                try:
+                    self.operand = Operand.create_from_str(
+                        original_operand[0:ending_location + 1].strip(),
+                        self.instruction
+                    )
+                except (OperandTypeError, ValueTypeError) as error:
+                    raise ParseError(str(error), line)
                 self.original_operand = copy(self.operand)
                 self.comment = original_operand[ending_location + 2:].strip() or ""
                 self.is_empty = False
